@@ -296,7 +296,8 @@ fn has_shadowing(t: &GTree, above: &mut Vec<usize>) -> bool {
 }
 
 /// Some attribute is in a namespace declared as default namespace on its element or above
-/// (inside `t`): the DeduplicateTracker sets a flag.  (`noFlag` of Lemmas/ScopeIdem.lean, negated.)
+/// (inside `t`): the DeduplicateTracker of the code before d434a2d set a flag here.  Input statistic
+/// only (the shape on which the old second-call defect depended).
 fn sets_tracker_flag(vocab: &Vocab, t: &GTree, defaults: &mut Vec<usize>) -> bool {
     let n0 = defaults.len();
     let mut found = false;
@@ -324,7 +325,7 @@ fn sets_tracker_flag(vocab: &Vocab, t: &GTree, defaults: &mut Vec<usize>) -> boo
 }
 
 /// Some element declares a prefix twice, or a prefix declared above is bound to ANOTHER namespace
-/// further down the path (`noRebind` of Lemmas/ScopeIdem.lean, negated).
+/// further down the path.  Input statistic only (the shape on which the old second-call defect depended).
 fn has_rebinding(t: &GTree, above: &mut Vec<(usize, usize)>) -> bool {
     let n0 = above.len();
     let mut found = false;
@@ -376,7 +377,7 @@ fn strip_ns(t: &GTree) -> GTree {
 }
 
 #[allow(clippy::too_many_arguments)]
-pub fn check_dedup(sink: &mut Sink, xot: &mut Xot, vocab: &mut Vocab, t: &GTree, path: &[usize], root: Node, node: Node, after: &GTree, before_str: Option<Result<String, Error>>) {
+pub fn check_dedup(sink: &mut Sink, xot: &mut Xot, vocab: &mut Vocab, t: &GTree, path: &[usize], root: Node, node: Node, after: &GTree, before_str: Option<Result<String, Error>>, before_node_str: Option<Result<String, Error>>) {
     if let Err(sig) = only_ns_deleted(t, after) {
         fail(sink, "C15", sig, "deduplicate_namespaces changed something other than deleting namespace declarations", t, path, "dedup");
     }
@@ -435,13 +436,9 @@ pub fn check_dedup(sink: &mut Sink, xot: &mut Xot, vocab: &mut Vocab, t: &GTree,
                     if lost.is_empty() {
                         lost.push("no-name-lost-its-prefix".to_string());
                     }
-                    // C15_serialises_partial / _inner (Lean): impossible for a call on any node of a
-                    // tree without shadowing
-                    let head = if !has_shadowing(t, &mut vec![1]) {
-                        "C15:serialisation-fails-after-dedup-without-shadowing"
-                    } else {
-                        "C15:serialisation-fails-after-dedup"
-                    };
+                    // C15_serialises (Lean): impossible for every tree and call node; there are no known
+                    // classes any more, every class is a finding
+                    let head = "C15:serialisation-fails-after-dedup";
                     for class in lost {
                         fail(sink, "C15", &format!("{}:{}", head, class), &format!("to_string succeeded before ({}) and fails after deduplicate_namespaces with {:?}", s, e), t, path, "dedup");
                     }
@@ -472,7 +469,19 @@ pub fn check_dedup(sink: &mut Sink, xot: &mut Xot, vocab: &mut Vocab, t: &GTree,
             }
         }
     }
-    // a second call removes nothing
+    // to_string(node) of the call node itself (C15_serialises_call_node)
+    if !path.is_empty() {
+        if let Some(Ok(sn)) = &before_node_str {
+            sink.stat("dedup.call-node-serialised-before");
+            match crate::common::guarded(|| xot.to_string(node)) {
+                Some(Ok(_)) => sink.stat("dedup.call-node-serialised-after"),
+                Some(Err(e)) => fail(sink, "C15", "C15:serialisation-of-call-node-fails-after-dedup", &format!("to_string(node) succeeded before ({}) and fails after deduplicate_namespaces(node) with {:?}", sn, e), t, path, "dedup"),
+                None => fail(sink, "C15", "C15:serialisation-panics-after-dedup", "to_string(node) panics after deduplicate_namespaces", t, path, "dedup"),
+            }
+        }
+    }
+    // a second call removes nothing (C15_idem: every tree, every call node); the shape statistics of
+    // the old partial theorem are kept as input statistics
     let idem_guards = match subtree_at(t, path) {
         Some(sub) => !has_rebinding(sub, &mut vec![]) && !sets_tracker_flag(vocab, sub, &mut vec![]),
         None => false,
@@ -482,15 +491,12 @@ pub fn check_dedup(sink: &mut Sink, xot: &mut Xot, vocab: &mut Vocab, t: &GTree,
         if after != t {
             sink.stat("dedup.idem-guards-hold.first-call-removed-something");
         }
+    } else if after != t {
+        sink.stat("dedup.rebinding-or-flag.first-call-removed-something");
     }
     if crate::common::guarded(|| xot.deduplicate_namespaces(node)).is_some() {
         let again = read_tree(xot, vocab, root);
-        if &again != after && idem_guards {
-            // C15_idem_partial (Lean): impossible when no prefix is re-bound to another namespace on a
-            // path and no attribute is in a default namespace of its element or above (both inside the
-            // subtree)
-            fail(sink, "C15", "C15:second-call-removes-more-under-the-idempotence-guards", "a second deduplicate_namespaces call removes further declarations although the subtree re-binds no prefix and sets no tracker flag", t, path, "dedup");
-        } else if &again != after {
+        if &again != after {
             let (_, mut second) = crate::scope_dedup_class::classify(vocab, t, after, Some(&again), path);
             if second.is_empty() {
                 second.push("unclassified".to_string());
